@@ -473,6 +473,17 @@ fn parse_name<T: Pep508Url>(cursor: &mut Cursor) -> Result<PackageName, Pep508Er
                 }
             }
             Some(_) | None => {
+                // [.-_] can't be the final character, whatever follows the name
+                if let Some(char @ ('.' | '-' | '_')) = name.chars().last() {
+                    return Err(Pep508Error {
+                        message: Pep508ErrorSource::String(format!(
+                            "Package name must end with an alphanumeric character, not '{char}'"
+                        )),
+                        start: cursor.pos() - char.len_utf8(),
+                        len: char.len_utf8(),
+                        input: cursor.to_string(),
+                    });
+                }
                 return Ok(PackageName::new(name)
                     .expect("`PackageName` validation should match PEP 508 parsing"));
             }
@@ -650,6 +661,17 @@ fn parse_extras_cursor<T: Pep508Url>(
             }
             _ => {}
         };
+        // [.-_] can't be the final character of the identifier
+        if let Some(char @ ('.' | '-' | '_')) = buffer.chars().last() {
+            return Err(Pep508Error {
+                message: Pep508ErrorSource::String(format!(
+                    "Extra name must end with an alphanumeric character, not '{char}'"
+                )),
+                start: cursor.pos() - char.len_utf8(),
+                len: char.len_utf8(),
+                input: cursor.to_string(),
+            });
+        }
         // wsp* after the identifier
         cursor.eat_whitespace();
 
